@@ -192,6 +192,7 @@ func genC02PgpSubkeys(r *rng) {
 }
 
 func genC02(tier string, r *rng) {
+	genDerKeys(tier, r)
 	genC02PgpSubkeys(r)
 	comments := []string{"", "user@host", "a comment with spaces", "ünï@cödé", "#x"}
 	bitsList := []int{256, 511, 512, 513, 1023, 1024, 1025, 2047, 2048, 2049, 3071, 4095, 8192}
@@ -209,18 +210,25 @@ func genC02(tier string, r *rng) {
 	}
 	e := big.NewInt(65537)
 	for bi, bits := range bitsList {
-		n := oddOfBits(r, bits)
+		// a modulus of exactly `bits` bits that IS the product of the two numbers stored as its primes (they need not be
+		// prime for a description; the recogniser checks the product)
+		p, q := oddOfBits(r, (bits+1)/2), oddOfBits(r, bits/2)
+		n := new(big.Int).Mul(p, q)
+		for n.BitLen() != bits {
+			p, q = oddOfBits(r, (bits+1)/2), oddOfBits(r, bits/2)
+			n.Mul(p, q)
+		}
 		nhex := fmt.Sprintf("%x", n)
 		if len(nhex)%2 == 1 {
 			nhex = "0" + nhex
 		}
 		pubParam := "rsa " + nhex
-		d, p, q := oddOfBits(r, bits-1), oddOfBits(r, bits/2), oddOfBits(r, bits/2)
+		d := oddOfBits(r, bits-1)
 		secrets := [][]byte{d.Bytes(), p.Bytes(), q.Bytes()}
 		cm := comments[bi%len(comments)]
 		// PKCS#1 public / private, SPKI, PKCS#8 (DER and PEM)
-		p1pub := mustMarshal(asn1struct.PKCS1PublicKey{N: n, E: 65537})
-		p1priv := mustMarshal(asn1struct.PKCS1PrivateKey{Version: 0, N: n, E: 65537, D: d, P: p, Q: q, Dp: big.NewInt(3), Dq: big.NewInt(5), Qinv: big.NewInt(7)})
+		p1pub := mustMarshal(asn1struct.PKCS1PublicKey{N: n, E: big.NewInt(65537)})
+		p1priv := mustMarshal(asn1struct.PKCS1PrivateKey{Version: 0, N: n, E: big.NewInt(65537), D: d, P: p, Q: q, Dp: big.NewInt(3), Dq: big.NewInt(5), Qinv: big.NewInt(7)})
 		spki := mustMarshal(spkiT{algID{oidRSA, asn1.RawValue{Tag: 5}}, asn1.BitString{Bytes: p1pub, BitLength: len(p1pub) * 8}})
 		p8 := mustMarshal(pkcs8T{0, algID{oidRSA, asn1.RawValue{Tag: 5}}, p1priv})
 		emitKey(keyCase{"pkcs1pub", "k.der", p1pub, "rsa", nhex, "", nil, nil, pubParam, "PKCS#1 public key"})
